@@ -255,7 +255,7 @@ PROPS = {
             {"test": "TestC07Known", "kind": "plain", "shards": 1},
         ],
         "fuzz": [{"fuzz": "FuzzC07", "budget_s": 180}],
-        "floors": {"declared-length-exceeds-input": ("job:TestC07", 0.2), "input>64KiB": ("job:TestC07", 0.03), "gen:chain": ("job:TestC07", 0.04), "gen:nested-overdeclared-lists": ("job:TestC07", 0.04), "decoded:ok": ("job:TestC07", 0.1)},
+        "floors": {"declared-length-exceeds-input": ("job:TestC07", 0.2), "input>64KiB": ("job:TestC07", 0.03), "gen:chain": ("job:TestC07", 0.015), "gen:chain-with-leaves": ("job:TestC07", 0.015), "gen:nested-overdeclared-lists": ("job:TestC07", 0.04), "decoded:ok": ("job:TestC07", 0.1)},
         "rule": "byte strings decoded in an isolated worker process (address space limited to 4 GiB): short inputs declaring huge lengths (1/2/3 length bytes FF.., every format, nesting "
                 "depth 0..64), long valid items (64 KiB..256 KiB quick / 4 MiB thorough of A, B, BOOLEAN, I1, I2, U8, F4 and lists of small items), truncated items with patched outer "
                 "length, nested chains up to the depth cap, wide lists of lists, random bytes with and without a correct frame. Oracle: the call returns normally (an escaping panic or a "
